@@ -1419,9 +1419,12 @@ func (p *Proof) updateProofAdd(adds, cachedDelHashes []Hash, remembers []uint32,
 	// will be in the proof hashes.
 	newNodes = mergeSortedHashAndPos(newNodes, proofWithPos)
 
-	// Grab all the new hashes to be cached.
+	// Grab all the new hashes to be cached along with their positions. The position
+	// is calculated from the index of the add as a hash isn't enough to tell an added
+	// leaf apart from another new node that happens to have the same hash.
 	remembersIdx := 0
-	addHashes := []Hash{}
+	afterRows := TreeRows(beforeNumLeaves + uint64(len(adds)))
+	remembersWithHash := hashAndPos{}
 	for i := 0; i < len(adds); i++ {
 		add := adds[i]
 		if remembersIdx >= len(remembers) {
@@ -1429,14 +1432,22 @@ func (p *Proof) updateProofAdd(adds, cachedDelHashes []Hash, remembers []uint32,
 		}
 
 		if uint32(i) == remembers[remembersIdx] {
-			addHashes = append(addHashes, add)
+			// Same as in the stump add: the added leaf moves up for every
+			// destroyed empty root that it's added over.
+			pos := beforeNumLeaves + uint64(i)
+			for _, del := range toDestroy {
+				if isAncestor(Parent(del, afterRows), pos, afterRows) {
+					pos, _ = calcNextPosition(pos, del, afterRows)
+				}
+			}
+			remembersWithHash.Append(pos, add)
 			remembersIdx++
 		} else if uint32(i) > remembers[remembersIdx] {
 			remembersIdx++
 			i--
 		}
 	}
-	remembersWithHash := getHashAndPosHashSubset(newNodes, addHashes)
+	sort.Sort(remembersWithHash)
 
 	// Add the new hashes to be cached to the current hashes.
 	origTargetsWithHash = mergeSortedHashAndPos(remembersWithHash, origTargetsWithHash)
